@@ -28,6 +28,7 @@ of C15's invariants.  The operator switches are compared through the regenerated
 (`switch_agrees16`, `switch_explicit16`).
 -/
 import GopModel.Lemmas.ScanC16e
+import GopModel.Lemmas.ScanSpecials
 namespace GopModel.Scan.C16
 open GopModel.Generated GopModel.Scan
 
